@@ -1,6 +1,8 @@
 //! Expression-level semantic drivers (DESIGN.md §7.1): C33 evaluation strategies, C04 simplifier, C41 parameters.
 mod ast;
+mod c04;
 mod c33;
+mod c41;
 
 fn main() {
     let a: Vec<String> = std::env::args().collect();
@@ -8,6 +10,8 @@ fn main() {
     std::panic::set_hook(Box::new(|_| {}));
     match a.get(1).map(|s| s.as_str()).unwrap_or("") {
         "c33" => c33::main(),
+        "c04" => c04::main(),
+        "c41" => c41::main(),
         _ => {
             eprintln!("usage: vexpr c33 --in cases.ndjson --out results.ndjson");
             std::process::exit(2);
